@@ -87,3 +87,6 @@ META = {
 
 # ROUND-8-APPEND
 PROP['rule'] += " (0, run first so that every later case is answered afterwards) in-depth aliasing histories (c15_r8.go, oracle-only classes c15.history|deep|v*|<source>): for all 17 versions with a published code x 6 sources of a handed-out value (GetCodeByVer, GenerateStateInit, Wallet.StateInit(), the application's struct copy of it, the Init of NextMessageParams, StateInit() followed by a SendV2) x depth target (root / children / grand-children / deepest / one random non-root cell / all cells of code and data): record every answer (GenerateWalletAddress, hash of GenerateStateInit, GetWalletVersion on that code, GetAddress / hash(StateInit()) / hash(NextMessageParams(none).Init) / destination and attached init of the first SendV2 message for a fresh New(...) and for a Wallet object made earlier, GetCodeHashByVer, hash and BOC of GetCodeByVer, GetVerByCodeHash, read cursors of a freshly returned code cell) plus witness values obtained earlier through every API; the caller then reads through every reachable cell (cursors move) and writes into the target cells (append a bit / add a reference / reset and write): every answer and every witness must be unchanged (c15-deep-aliasing; cursor position of later code cells: c15-deep-cursors), every answer set must be coherent (address = hash of the state-init through every API, first message addressed to it and carrying the init that hashes to it: c15-deep-incoherent), and a closing c15.addr case per version is compared with the model (addr|after-deep-modification|v*)."
+
+# ROUND-8-APPEND-2
+PROP['rule'] += ' (2d, c15_r8b.go) the deterministic grid: EVERY sending version x account status none / uninit / frozen / active x stored seqno 0, 1, 2, 2^32-1, random (v5 beta also 2^32 and 2^33-1, low 32 bits 0 / 2^32-1) x 0..1 dictionary entries, no cell left to chance: c15.next and c15.send (wait 0) vs the model (C15_next_params_spec: active => seqno of the data and no init, otherwise seqno 0 and the own init; highload init iff none/uninit), the state polled into a reused record; oracles keyed on the STATUS alone (never on the seqno value) through every API that yields send parameters on a fresh literal state - NextMessageParams, Send, SendV2, NextMessageParams->RawSend, NextMessageParams->RawSendV2: body seqno, init flag, attached init hash = own state-init, destination = the wallet; and ONE wallet object / chain / polled record walked through the whole grid twice (fixed stride, then random), alternating Send / SendV2, every message being the one the status of that poll requires.'
